@@ -15,11 +15,14 @@
     [fixed = false] is the order before the repair ([setLastIndex], then
     [addIndex]).
 
-    Ghost state: [g_tracked], the indices whose [Begin] took its first effect
-    (first write to shared state) while [lastIndex] was still below the index
-    ("timely": the index is larger than everything begun before) and whose
-    [Done] has not yet decremented the slot; [g_waitret], the indices of the
-    [WaitForMark] calls that have returned.  No proofs in this file. *)
+    Ghost state: [gh_tracked], the pairs (index, thread) such that the thread's
+    [Begin index] took its first effect (first write to shared state) while
+    [lastIndex] was still below the index ("in order": the index is larger than
+    everything begun before) and the thread's matching [Done] has not yet
+    decremented the slot; [gh_untimely], the other counted Begins;
+    [gh_stray], set when a [Done] decrements without a counted Begin of the
+    same thread and index (a misuse of the API); [g_waitret], the indices of
+    the [WaitForMark] calls that have returned.  No proofs in this file. *)
 From Coq Require Import List NArith ZArith Bool.
 From NoKV Require Import Base.Sched Model.SchedLib.
 Import ListNotations.
@@ -45,6 +48,8 @@ Inductive pc :=
 
 Record thread := { th_ops : list op; th_pc : pc }.
 
+Record ghost := { gh_tracked : list (N * nat); gh_untimely : list (N * nat); gh_stray : bool }.
+
 Record gstate := {
   g_done : N;                         (* doneUntil *)
   g_last : N;                         (* lastIndex *)
@@ -53,14 +58,16 @@ Record gstate := {
   g_mu : option nat;                  (* holder of w.mu *)
   g_waiters : list (N * nat);         (* (index, waiting thread): open channels *)
   g_threads : list thread;
-  g_tracked : list N;                 (* ghost *)
+  g_ghost : ghost;
   g_waitret : list N                  (* ghost *)
 }.
 
 Definition init (size : nat) (progs : list (list op)) : gstate :=
   {| g_done := 0; g_last := 0; g_wins := [(1, repeat 0%Z size)]; g_cur := 0%nat; g_mu := None;
      g_waiters := []; g_threads := map (fun p => {| th_ops := p; th_pc := match p with [] => PFin | _ => PStart end |}) progs;
-     g_tracked := []; g_waitret := [] |}.
+     g_ghost := {| gh_tracked := []; gh_untimely := []; gh_stray := false |}; g_waitret := [] |}.
+
+Definition g_tracked (g : gstate) : list (N * nat) := gh_tracked (g_ghost g).
 
 Definition win_at (g : gstate) (w : nat) : N * list Z := nth w (g_wins g) (1, []).
 
@@ -83,6 +90,12 @@ Fixpoint grow (fuel : nat) (size needed : N) : N :=
 Fixpoint remove_one (i : N) (l : list N) : list N :=
   match l with [] => [] | x :: l' => if i =? x then l' else x :: remove_one i l' end.
 
+Fixpoint remove_pair (i : N) (t : nat) (l : list (N * nat)) : list (N * nat) :=
+  match l with
+  | [] => []
+  | (j, u) :: l' => if (i =? j) && Nat.eqb t u then l' else (j, u) :: remove_pair i t l'
+  end.
+
 Fixpoint has_waiter (i : N) (t : nat) (l : list (N * nat)) : bool :=
   match l with [] => false | (j, u) :: l' => ((i =? j) && Nat.eqb t u) || has_waiter i t l' end.
 
@@ -90,13 +103,13 @@ Section Variant.
   Variable fixed : bool.
 
   Definition upd (g : gstate) (done last : N) (wins : list (N * list Z)) (cur : nat) (mu : option nat)
-             (waiters : list (N * nat)) (tracked waitret : list N) (t : nat) (th : thread) : gstate :=
+             (waiters : list (N * nat)) (gh : ghost) (waitret : list N) (t : nat) (th : thread) : gstate :=
     {| g_done := done; g_last := last; g_wins := wins; g_cur := cur; g_mu := mu; g_waiters := waiters;
-       g_threads := set_nth t th (g_threads g); g_tracked := tracked; g_waitret := waitret |}.
+       g_threads := set_nth t th (g_threads g); g_ghost := gh; g_waitret := waitret |}.
 
   (** thread [t] moves to [p], nothing else changes *)
   Definition goto (g : gstate) (t : nat) (ops : list op) (p : pc) : gstate :=
-    upd g (g_done g) (g_last g) (g_wins g) (g_cur g) (g_mu g) (g_waiters g) (g_tracked g) (g_waitret g)
+    upd g (g_done g) (g_last g) (g_wins g) (g_cur g) (g_mu g) (g_waiters g) (g_ghost g) (g_waitret g)
         t {| th_ops := ops; th_pc := p |}.
 
   (** the operation at the head of [ops] is finished *)
@@ -139,7 +152,10 @@ Section Variant.
         if g_last g =? cur then
           let x := after_sl ops o in
           Some (upd g (g_done g) i (g_wins g) (g_cur g) (g_mu g) (g_waiters g)
-                    (if fixed then g_tracked g else i :: g_tracked g) (g_waitret g)
+                    (if fixed then g_ghost g
+                     else {| gh_tracked := (i, t) :: gh_tracked (g_ghost g);
+                             gh_untimely := gh_untimely (g_ghost g); gh_stray := gh_stray (g_ghost g) |})
+                    (g_waitret g)
                     t {| th_ops := fst x; th_pc := snd x |})
         else same SLLoad
     | EWLoad w =>
@@ -148,13 +164,13 @@ Section Variant.
         match g_mu g with
         | Some _ => None
         | None => Some (upd g (g_done g) (g_last g) (g_wins g) (g_cur g) (Some t) (g_waiters g)
-                            (g_tracked g) (g_waitret g) t {| th_ops := ops; th_pc := EWReload w |})
+                            (g_ghost g) (g_waitret g) t {| th_ops := ops; th_pc := EWReload w |})
         end
     | EWReload w =>
         if in_range (target w o) (win_at g (g_cur g)) then same (EWUnlock w (g_cur g)) else same (RBDone w (g_cur g))
     | EWUnlock w win =>
         Some (upd g (g_done g) (g_last g) (g_wins g) (g_cur g) None (g_waiters g)
-                  (g_tracked g) (g_waitret g) t {| th_ops := ops; th_pc := ew_return w win |})
+                  (g_ghost g) (g_waitret g) t {| th_ops := ops; th_pc := ew_return w win |})
     | RBDone w old =>
         let newBase := g_done g + 1 in
         let index := if target w o <? newBase then newBase else target w o in
@@ -171,20 +187,32 @@ Section Variant.
         same (if Nat.ltb (S k) (length (snd ow)) then RBCopy w old newBase (S k) acc' else RBStore w newBase acc')
     | RBStore w newBase slots =>
         Some (upd g (g_done g) (g_last g) (g_wins g ++ [(newBase, slots)]) (length (g_wins g)) (g_mu g)
-                  (g_waiters g) (g_tracked g) (g_waitret g) t {| th_ops := ops; th_pc := EWFinal w |})
+                  (g_waiters g) (g_ghost g) (g_waitret g) t {| th_ops := ops; th_pc := EWFinal w |})
     | EWFinal w =>
         Some (upd g (g_done g) (g_last g) (g_wins g) (g_cur g) None (g_waiters g)
-                  (g_tracked g) (g_waitret g) t {| th_ops := ops; th_pc := ew_return w (g_cur g) |})
+                  (g_ghost g) (g_waitret g) t {| th_ops := ops; th_pc := ew_return w (g_cur g) |})
     | ADAdd win =>
         let w := win_at g win in
         let wins := if in_range i w
                     then set_nth win (fst w, add_nth (N.to_nat (i - fst w)) (op_delta o) (snd w)) (g_wins g)
                     else g_wins g in
-        let tracked := match o with
-                       | Begin _ => if fixed && (g_last g <? i) then i :: g_tracked g else g_tracked g
-                       | Done _ => remove_one i (g_tracked g)
-                       | Wait _ => g_tracked g
-                       end in
+        let gh := g_ghost g in
+        let tracked :=
+          match o with
+          | Begin _ =>
+              if fixed then
+                if g_last g <? i
+                then {| gh_tracked := (i, t) :: gh_tracked gh; gh_untimely := gh_untimely gh; gh_stray := gh_stray gh |}
+                else {| gh_tracked := gh_tracked gh; gh_untimely := (i, t) :: gh_untimely gh; gh_stray := gh_stray gh |}
+              else gh
+          | Done _ =>
+              if has_waiter i t (gh_tracked gh)
+              then {| gh_tracked := remove_pair i t (gh_tracked gh); gh_untimely := gh_untimely gh; gh_stray := gh_stray gh |}
+              else if has_waiter i t (gh_untimely gh)
+              then {| gh_tracked := gh_tracked gh; gh_untimely := remove_pair i t (gh_untimely gh); gh_stray := gh_stray gh |}
+              else {| gh_tracked := gh_tracked gh; gh_untimely := gh_untimely gh; gh_stray := true |}
+          | Wait _ => gh
+          end in
         Some (upd g (g_done g) (g_last g) wins (g_cur g) (g_mu g) (g_waiters g) tracked (g_waitret g)
                   t {| th_ops := ops; th_pc := TADone |})
     | TADone => same (TALast (g_done g))
@@ -197,44 +225,44 @@ Section Variant.
         else same (TACas du)
     | TACas du =>
         if g_done g =? du then
-          Some (upd g (du + 1) (g_last g) (g_wins g) (g_cur g) (g_mu g) (g_waiters g) (g_tracked g) (g_waitret g)
+          Some (upd g (du + 1) (g_last g) (g_wins g) (g_cur g) (g_mu g) (g_waiters g) (g_ghost g) (g_waitret g)
                     t {| th_ops := ops; th_pc := NTLock (du + 1) |})
         else same TADone
     | NTLock u =>
         match g_mu g with
         | Some _ => None
         | None => Some (upd g (g_done g) (g_last g) (g_wins g) (g_cur g) (Some t) (g_waiters g)
-                            (g_tracked g) (g_waitret g) t {| th_ops := ops; th_pc := NTClose u |})
+                            (g_ghost g) (g_waitret g) t {| th_ops := ops; th_pc := NTClose u |})
         end
     | NTClose u =>
         Some (upd g (g_done g) (g_last g) (g_wins g) (g_cur g) None
                   (filter (fun x => negb (fst x <=? u)) (g_waiters g))
-                  (g_tracked g) (g_waitret g) t {| th_ops := ops; th_pc := TADone |})
+                  (g_ghost g) (g_waitret g) t {| th_ops := ops; th_pc := TADone |})
     | WFast =>
         if i <=? g_done g then
           let x := next_op_pc ops in
-          Some (upd g (g_done g) (g_last g) (g_wins g) (g_cur g) (g_mu g) (g_waiters g) (g_tracked g)
+          Some (upd g (g_done g) (g_last g) (g_wins g) (g_cur g) (g_mu g) (g_waiters g) (g_ghost g)
                     (i :: g_waitret g) t {| th_ops := fst x; th_pc := snd x |})
         else same WLock
     | WLock =>
         match g_mu g with
         | Some _ => None
         | None => Some (upd g (g_done g) (g_last g) (g_wins g) (g_cur g) (Some t) (g_waiters g)
-                            (g_tracked g) (g_waitret g) t {| th_ops := ops; th_pc := WCheck |})
+                            (g_ghost g) (g_waitret g) t {| th_ops := ops; th_pc := WCheck |})
         end
     | WCheck =>
         if i <=? g_done g then
           let x := next_op_pc ops in
-          Some (upd g (g_done g) (g_last g) (g_wins g) (g_cur g) None (g_waiters g) (g_tracked g)
+          Some (upd g (g_done g) (g_last g) (g_wins g) (g_cur g) None (g_waiters g) (g_ghost g)
                     (i :: g_waitret g) t {| th_ops := fst x; th_pc := snd x |})
         else
-          Some (upd g (g_done g) (g_last g) (g_wins g) (g_cur g) None ((i, t) :: g_waiters g) (g_tracked g)
+          Some (upd g (g_done g) (g_last g) (g_wins g) (g_cur g) None ((i, t) :: g_waiters g) (g_ghost g)
                     (g_waitret g) t {| th_ops := ops; th_pc := WSelect |})
     | WSelect =>
         if has_waiter i t (g_waiters g) then None
         else
           let x := next_op_pc ops in
-          Some (upd g (g_done g) (g_last g) (g_wins g) (g_cur g) (g_mu g) (g_waiters g) (g_tracked g)
+          Some (upd g (g_done g) (g_last g) (g_wins g) (g_cur g) (g_mu g) (g_waiters g) (g_ghost g)
                     (i :: g_waitret g) t {| th_ops := fst x; th_pc := snd x |})
     | PFin => None
     end.
@@ -251,5 +279,5 @@ Section Variant.
 End Variant.
 
 (** the property on a state: every tracked index is above the mark *)
-Definition safe_b (g : gstate) : bool := forallb (fun i => g_done g <? i) (g_tracked g).
+Definition safe_b (g : gstate) : bool := forallb (fun x => g_done g <? fst x) (g_tracked g).
 Definition waits_ok_b (g : gstate) : bool := forallb (fun i => i <=? g_done g) (g_waitret g).
